@@ -73,7 +73,32 @@ def build_case(rng):
         bom = b"\xef\xbb\xbf" if enc == "utf-8-sig" else b""
     data = bom + nlb.join(lines) + nlb
     exp = bom + nlb.join(expect) + nlb
-    return {"enc": enc, "cfg_enc": cfg_enc, "nl": nl.decode(), "data": data, "expect": exp, "has_bad": has_bad, "undecodable": undecodable}
+    templated = False
+    if enc in ("utf-8", "latin-1", "cp1252", "ascii") and nl == b"\n" and rng.random() < 0.4:
+        # template code next to the places where whitespace fixes act: inline tags / comments directly before surplus
+        # trailing blanks and surplus blank lines at the end of the file; all of it must survive byte for byte
+        templated = True
+        tag_lines = [b"SELECT a FROM t {% if true %}WHERE a > 1{% endif %};", b"SELECT a FROM t WHERE a = 1;{# keep me #}", b"{# a comment line #}",
+                     b"SELECT {{ 1 }} AS one FROM t;"]
+        k = rng.randrange(len(lines) + 1)
+        tl = rng.choice(tag_lines)
+        lines.insert(k, tl); expect.insert(k, tl)
+        last = rng.choice([b"SELECT a FROM t {% if true %}WHERE a > 1{% endif %}", b"SELECT a FROM t WHERE a = 1{# keep me #}"])
+        surplus = rng.choice([b"   ", b"", b" "])
+        extra_nl = rng.choice([b"", b"\n", b"\n\n"])
+        data = bom + nlb.join(lines) + nlb + last + surplus + b"\n" + extra_nl
+        exp = bom + nlb.join(expect) + nlb + last + b"\n"
+        has_bad = has_bad or bool(surplus) or bool(extra_nl)
+    return {"enc": enc, "cfg_enc": cfg_enc, "nl": nl.decode(), "data": data, "expect": exp, "has_bad": has_bad, "undecodable": undecodable, "templated": templated}
+
+
+def canon_tpl(b):
+    """Templated cases: whether sqlfluff dares to delete the surplus blanks next to a tag is its choice (it may skip the
+    patch as uncertain); what must hold is that nothing but trailing blanks / trailing blank lines differs."""
+    lines = [l.rstrip(b" \t") for l in b.replace(b"\r\n", b"\n").split(b"\n")]
+    while lines and lines[-1] == b"":
+        lines.pop()
+    return b"\n".join(lines)
 
 
 def norm_nl(b, enc):
@@ -107,7 +132,8 @@ def run(ctx, prove=True):
             p = os.path.join(d, "f%d.sql" % i)
             open(p, "wb").write(case["data"])
             cfgp = os.path.join(d, "cfg%d.ini" % i)
-            open(cfgp, "w").write("[sqlfluff]\ndialect = ansi\nrules = LT01\nencoding = %s\n" % case["cfg_enc"])
+            open(cfgp, "w").write("[sqlfluff]\ndialect = ansi\nrules = %s\ntemplater = %s\nencoding = %s\n" % (
+                "LT01,LT12" if case["templated"] else "LT01", "jinja" if case["templated"] else "raw", case["cfg_enc"]))
             st0 = os.stat(p)
             captured.clear()
             lm.merge_source_patches = spy
@@ -119,8 +145,8 @@ def run(ctx, prove=True):
             out = open(p, "rb").read()
             info = {k: (v.hex() if isinstance(v, bytes) else v) for k, v in case.items()}
             info["cli_exit"] = r.exit_code
-            ctx.count((case["data"], case["cfg_enc"]), nontrivial=case["has_bad"], sample={k: info[k] for k in ("enc", "cfg_enc", "nl", "has_bad", "undecodable")} if len(ctx.samples) < 5 and case["has_bad"] else None)
-            ctx.bump("enc_" + case["enc"]); ctx.bump("nl_" + repr(case["nl"])); ctx.bump("undecodable" if case["undecodable"] else "decodable")
+            ctx.count((case["data"], case["cfg_enc"]), nontrivial=case["has_bad"], sample={k: info[k] for k in ("enc", "cfg_enc", "nl", "has_bad", "undecodable", "templated")} if len(ctx.samples) < 5 and case["has_bad"] else None)
+            ctx.bump("templated" if case["templated"] else "untemplated"); ctx.bump("enc_" + case["enc"]); ctx.bump("nl_" + repr(case["nl"])); ctx.bump("undecodable" if case["undecodable"] else "decodable")
             if r.exception is not None and not isinstance(r.exception, SystemExit):
                 ctx.bump("cli_raised"); continue
             if not case["has_bad"]:
@@ -129,7 +155,10 @@ def run(ctx, prove=True):
                     ctx.violation("a file with no applicable fixes was rewritten", dict(info, out=out.hex()))
                 continue
             ctx.bump("fixed_files")
-            if norm_nl(out, case["enc"]) != norm_nl(case["expect"], case["enc"]):
+            if case["templated"]:
+                if canon_tpl(out) != canon_tpl(case["expect"]):
+                    ctx.violation("after newline normalisation the fixed file differs from the input outside the fixed ranges (template code next to a whitespace fix)", dict(info, out=out.hex()))
+            elif norm_nl(out, case["enc"]) != norm_nl(case["expect"], case["enc"]):
                 key = None
                 if case["undecodable"]:
                     # is the only damage the escape text for the undecodable bytes?
@@ -143,11 +172,14 @@ def run(ctx, prove=True):
             except Exception:
                 text = None
             if text is not None:
-                api = sqlfluff.fix(text, dialect="ansi", rules=["LT01"])
+                api = sqlfluff.fix(text, dialect="ansi", rules=["LT01", "LT12"] if case["templated"] else ["LT01"])
                 exp_text = case["expect"].decode(case["enc"])
                 n = lambda s: s.replace("\r\n", "\n").replace("\r", "\n")
                 ctx.bump("api_runs")
-                if n(api.lstrip("﻿")) != n(exp_text.lstrip("﻿")):
+                if case["templated"]:
+                    if canon_tpl(api.encode("utf-8")) != canon_tpl(exp_text.encode("utf-8")):
+                        ctx.violation("sqlfluff.fix changes text outside the fixed ranges (template code next to a whitespace fix)", dict(info, api=api))
+                elif n(api.lstrip("﻿")) != n(exp_text.lstrip("﻿")):
                     ctx.violation("sqlfluff.fix changes text outside the fixed ranges", dict(info, api=api))
             # model tie on the captured buffers
             for bufs in captured[:1]:
